@@ -5,6 +5,7 @@ import (
 	"go/ast"
 	"go/token"
 	"go/types"
+	"sort"
 	"strings"
 
 	"gpverif/core"
@@ -53,25 +54,41 @@ func c20Rotate(r *core.Run, p *core.Prog) {
 		g := core.NewGraph(info, wrap)
 		cl := func(n ast.Node, cond *bool) []ev {
 			var out []ev
-			if cond != nil && core.MentionsObj(info, n, vv) && strings.Contains(core.Str(n.(ast.Expr)), "Packets") {
-				// has-packets test: v.PacketsRcvd > 0 || v.PacketsSent > 0 (or != 0)
-				c := n.(ast.Expr)
-				ds := core.Conjuncts(c, true)
-				okForm := len(ds) == 2
-				for _, d := range ds {
-					b, ok := core.BinOp(d, token.GTR, token.NEQ)
-					if !ok {
-						okForm = false
-						continue
-					}
-					if k, okc := core.ConstInt(info, b.Y); !okc || k != 0 || core.SelField(info, b.X) == nil {
-						okForm = false
+			if cond != nil && core.MentionsObj(info, n, vv) {
+				// has-packets test: v.PacketsRcvd > 0 || v.PacketsSent > 0 (or != 0), possibly negated, possibly wrapped in a
+				// one-line predicate method of the flow
+				c, truth := normCond(n.(ast.Expr), *cond)
+				ci := info
+				isTest := strings.Contains(core.Str(c), "Packets")
+				if call, ok := c.(*ast.CallExpr); ok {
+					if rx, _ := core.MethodCall(info, call); rx != nil && core.ObjOf(info, rx) == vv && len(call.Args) == 0 {
+						if fo, ok := core.Callee(info, call).(*types.Func); ok {
+							if h := p.FnOf(fo); h != nil && len(h.Decl.Body.List) == 1 {
+								if rs, ok := h.Decl.Body.List[0].(*ast.ReturnStmt); ok && len(rs.Results) == 1 {
+									c, ci, isTest = rs.Results[0], h.Info(), true
+								}
+							}
+						}
 					}
 				}
-				if okForm && strings.Contains(core.Str(c), "PacketsRcvd") && strings.Contains(core.Str(c), "PacketsSent") {
-					out = append(out, ev{label: map[bool]string{true: "has-packets", false: "no-packets"}[*cond]})
-				} else {
-					out = append(out, ev{label: "odd-test"})
+				if isTest {
+					ds := core.Conjuncts(c, true)
+					okForm := len(ds) == 2
+					for _, d := range ds {
+						b, ok := core.BinOp(d, token.GTR, token.NEQ)
+						if !ok {
+							okForm = false
+							continue
+						}
+						if k, okc := core.ConstInt(ci, b.Y); !okc || k != 0 || core.SelField(ci, b.X) == nil {
+							okForm = false
+						}
+					}
+					if okForm && strings.Contains(core.Str(c), "PacketsRcvd") && strings.Contains(core.Str(c), "PacketsSent") {
+						out = append(out, ev{label: map[bool]string{true: "has-packets", false: "no-packets"}[truth]})
+					} else {
+						out = append(out, ev{label: "odd-test"})
+					}
 				}
 			}
 			for _, c := range core.Calls(n, false) {
@@ -236,61 +253,90 @@ func c20FlowCounters(r *core.Run, p *core.Prog) {
 			return
 		}
 		info := f.Info()
-		var ifs *ast.IfStmt
-		for _, st := range f.Decl.Body.List {
-			if s, ok := st.(*ast.IfStmt); ok && ifs == nil {
-				ifs = s
-			}
-		}
-		okCond := false
-		if ifs != nil {
-			if b, ok := core.BinOp(ifs.Cond, token.EQL); ok {
-				if o := core.ObjOf(info, selOrIdent(b.Y)); o != nil && o.Name() == "PacketOutgoing" {
-					okCond = true
+		g := core.GraphOf(f)
+		cases := enumTests(f.Decl.Body)
+		sig := f.Obj.Type().(*types.Signature)
+		pType, pSize := sig.Params().At(0), sig.Params().At(1)
+		cl := func(n ast.Node, cond *bool) []ev {
+			var out []ev
+			if cond != nil {
+				if subj, k, eq, ok := enumCond(cases, n, *cond); ok && core.ObjOf(info, subj) == pType {
+					if o := core.ObjOf(info, selOrIdent(k)); o != nil && o.Name() == "PacketOutgoing" {
+						out = append(out, ev{label: map[bool]string{true: "outgoing", false: "other"}[eq]})
+					} else {
+						out = append(out, ev{label: "tests-other-type"})
+					}
 				}
+				return out
 			}
-		}
-		fieldsIn := func(n ast.Node) map[string]string {
-			m := map[string]string{}
 			core.Walk(n, false, func(x ast.Node) bool {
-				switch s := x.(type) {
+				switch st := x.(type) {
 				case *ast.KeyValueExpr:
-					m[core.Str(s.Key)] = core.Str(s.Value)
+					if id, ok := st.Key.(*ast.Ident); ok {
+						if fv, ok := info.Uses[id].(*types.Var); ok && fv.IsField() {
+							l := "field:" + fv.Name()
+							if core.MentionsObj(info, st.Value, pSize) {
+								l += ":size"
+							} else if k, okc := core.ConstInt(info, st.Value); okc && k == 1 {
+								l += ":one"
+							}
+							out = append(out, ev{label: l})
+						}
+					}
 				case *ast.AssignStmt:
-					if fv := core.SelField(info, s.Lhs[0]); fv != nil {
-						m[fv.Name()] = s.Tok.String() + core.Str(s.Rhs[0])
+					if fv := core.SelField(info, st.Lhs[0]); fv != nil && len(st.Rhs) == 1 {
+						l := "field:" + fv.Name()
+						if core.MentionsObj(info, st.Rhs[0], pSize) && (st.Tok == token.ADD_ASSIGN) == assignOp {
+							l += ":size"
+						} else if k, okc := core.ConstInt(info, st.Rhs[0]); okc && k == 1 && (st.Tok == token.ADD_ASSIGN) == assignOp {
+							l += ":one"
+						}
+						out = append(out, ev{label: l})
 					}
 				case *ast.IncDecStmt:
-					if fv := core.SelField(info, s.X); fv != nil {
-						m[fv.Name()] = s.Tok.String()
+					if fv := core.SelField(info, st.X); fv != nil && st.Tok == token.INC {
+						out = append(out, ev{label: "field:" + fv.Name() + ":one"})
 					}
 				}
 				return true
 			})
-			return m
+			return out
 		}
-		if !okCond || ifs == nil {
-			r.Check(rule, name+":branches-on-outgoing", p.Rel(f.Decl.Pos()), false, "the function must branch on pktType == capture.PacketOutgoing")
+		ts, ok := traces(f, g, cl, 2000)
+		if !ok {
+			r.Undecided(rule, name+":paths", p.Rel(f.Decl.Pos()), "too many paths")
 			return
 		}
-		out := fieldsIn(ifs.Body)
-		rest := &ast.BlockStmt{}
-		seen := false
-		for _, st := range f.Decl.Body.List {
-			if seen {
-				rest.List = append(rest.List, st)
+		bad, nOut, nIn := "", 0, 0
+		for _, t := range ts {
+			if t.has("outgoing") && t.has("other") {
+				continue
 			}
-			if st == ast.Stmt(ifs) {
-				seen = true
+			var fields []string
+			for _, e := range t.evs {
+				if strings.HasPrefix(e.label, "field:") {
+					fields = append(fields, strings.TrimPrefix(e.label, "field:"))
+				}
+			}
+			sort.Strings(fields)
+			got := strings.Join(fields, ",")
+			pl := pathLines(p, g, t.path)
+			switch {
+			case t.has("outgoing"):
+				nOut++
+				if got != "BytesSent:size,PacketsSent:one" {
+					bad = fmt.Sprintf("an outgoing packet must add its size to BytesSent and one to PacketsSent (only); found [%s] on %s", got, pl)
+				}
+			case t.has("other"):
+				nIn++
+				if got != "BytesRcvd:size,PacketsRcvd:one" {
+					bad = fmt.Sprintf("a packet that is not outgoing must add its size to BytesRcvd and one to PacketsRcvd (only); found [%s] on %s", got, pl)
+				}
+			default:
+				bad = "counters are updated without the packet direction (pktType == capture.PacketOutgoing) having been tested: " + pl
 			}
 		}
-		in := fieldsIn(rest)
-		okOut := len(out) == 2 && out["BytesSent"] != "" && out["PacketsSent"] != ""
-		okIn := len(in) == 2 && in["BytesRcvd"] != "" && in["PacketsRcvd"] != ""
-		size := f.Obj.Type().(*types.Signature).Params().At(1).Name()
-		okVal := strings.Contains(out["BytesSent"], size) && strings.Contains(in["BytesRcvd"], size)
-		r.Check(rule, name+":outgoing-counts-as-sent", p.Rel(f.Decl.Pos()), okOut && okIn && okVal,
-			fmt.Sprintf("an outgoing packet must add its size to BytesSent and one to PacketsSent, any other to BytesRcvd / PacketsRcvd; found outgoing=%v other=%v", out, in))
+		r.Check(rule, name+":outgoing-counts-as-sent", p.Rel(f.Decl.Pos()), bad == "" && nOut > 0 && nIn > 0, bad)
 	}
 	check("NewFlow", false)
 	check("Flow.UpdateFlow", true)
